@@ -41,6 +41,14 @@ CLAIMED.update({
     text="Index-stability clause: in the call tree of insert_color the only mutation of Palette.colors is Vec::push; the found path returns the loop index under exactly the r/g/b comparisons (Color's PartialEq compares exactly r,g,b) and the not-found path returns len-1 after the push; the 6-bit expansion/reduction expressions of all channels have the canonical GF(2) normal form and the EGA encoder covers slots 0..16. Palette text-format round trips are not decided.",
     design_ref="§4 C16", note=STRUCT_NOTE, technique="static analysis: effect (who-writes) rule over the call tree + return-value reconstruction + GF(2) normal forms"),
 })
+CLAIMED.update({
+ "C07": dict(category="other",
+    text="Structural necessary conditions of losslessness, each decided on all paths: the lossless switch of Buffer::to_bytes bypasses the colour optimiser / flattening and hands the document itself to the writer; every chunk keyword the writer emits is accepted by the reader and the record marker / layer flag constants are disjoint and two-sided; every narrowing cast in the writer is proven value-preserving (the 1-byte cell record is chosen only when all four fields fit); the PALETTE chunk is skipped only for a palette of exactly 16 default colours; length-prefixed strings use byte lengths on both sides; while the loader fills a layer the flags that make the Layer setters return early still hold their constructor values. Cell-exact reproduction is value-level and not decided.",
+    design_ref="§4 C07", note=STRUCT_NOTE, technique="static analysis: must-not-pass-through / vocabulary agreement rules + abstract interpretation (intervals, boolean-guarded facts) on writer and reader MIR"),
+ "C18": dict(category="other",
+    text="Code-page part: the compiled tables are evaluated exhaustively against the converter model (CP437 256 codes, ATASCII 128, [0-9A-Za-z ] for five converters) and the model is tied to the code by shape rules on the converters and on the reverse-map initialisers (the iteration range is read from the initialiser's MIR). Attribute part: per IceMode variant a bit-level dependency analysis of from_u8 and as_u8 shows that bit i of as_u8(from_u8(b)) depends on bit i of b and nothing else and that every decoded field bit is read back without interference; flag accessor masks agree pairwise. The three genuine deviations (Unlimited mode's bit 7, bold folded into the foreground) are listed as known findings.",
+    design_ref="§4 C18", note=STRUCT_NOTE + " Exact mask arithmetic is decided only up to bit dependencies.", technique="static analysis: exhaustive table check over compiled constants + shape rules + bit-level information-flow analysis of MIR"),
+})
 NOT_APPLICABLE = {p: PENDING for p in ["C%02d" % i for i in range(1, 21)]}
 NOT_APPLICABLE.update({
  "C05": "value-level: equality of pictures after save->load depends on run-time cell values along data-dependent paths of two separate programs (writer, reader); no structural clause is a genuine necessary condition that is not also a frozen-layout match (DESIGN §5)",
